@@ -135,6 +135,14 @@ impl Target {
     }
     pub async fn bind(addr: &str) -> Option<Target> {
         let l = TcpListener::bind(addr).await.ok()?;
+        Self::from_listener(l)
+    }
+    /// a listener reserved earlier (see `reserve_ports`)
+    pub fn from_std(l: std::net::TcpListener) -> Option<Target> {
+        l.set_nonblocking(true).ok()?;
+        Self::from_listener(TcpListener::from_std(l).ok()?)
+    }
+    fn from_listener(l: TcpListener) -> Option<Target> {
         let port = l.local_addr().ok()?.port();
         let (tx, rx) = tokio::sync::mpsc::unbounded_channel();
         let accepts = Arc::new(Mutex::new(Vec::new()));
@@ -162,6 +170,23 @@ impl Target {
     }
     pub async fn next(&mut self, wait: Duration) -> Option<Accepted> {
         tokio::time::timeout(wait, self.rx.recv()).await.ok().flatten()
+    }
+}
+
+/// Reserve fixed well-known ports (all of `addrs` or none), waiting up to `wait` for another process of
+/// this harness that holds them (two runs of the same check side by side) to finish.
+pub fn reserve_ports(addrs: &[&str], wait: Duration) -> Option<Vec<std::net::TcpListener>> {
+    let t0 = std::time::Instant::now();
+    loop {
+        let got: Vec<_> = addrs.iter().filter_map(|a| std::net::TcpListener::bind(a).ok()).collect();
+        if got.len() == addrs.len() {
+            return Some(got);
+        }
+        drop(got);
+        if t0.elapsed() > wait {
+            return None;
+        }
+        std::thread::sleep(Duration::from_millis(700 + (std::process::id() % 600) as u64));
     }
 }
 
